@@ -23,7 +23,7 @@ Q = sp.Function("Q")
 def _first(tr, d, args, kwargs, n):
     last = d.split(".")[-1]
     if last == "percentile":
-        q = args[1]
+        q = args[1] if len(args) > 1 else kwargs.get("q")
         if isinstance(q, (list, tuple, np.ndarray)):
             return np.array([Q(sp.nsimplify(sp.sympify(x))) for x in np.asarray(q, dtype=object).reshape(-1)], dtype=object)   # one edge per requested percentile
         return Q(sp.sympify(q))
@@ -64,6 +64,18 @@ def check_bins_semantics(repo, chk):
         decided.add(gm.key)
         if not ok:
             chk.violation("B-sem", gm.key, "mask", "the membership mask is %s; a partition needs AND over the coordinates of (x >= lower) & (x < upper): with another shape an event on a shared edge falls into two bins or into none" % (got,), file=AB, line=gm.lineno)
+        # one binned variable plus an extra row (event weights carried along, as split_data(np.array([m, w])) does):
+        # only the binned row decides the bin
+        W0 = sp.Symbol("w0", real=True)
+        hooks1 = {"numeric_call_first": _first, cls.methods["get_bounds"].key: lambda tr, a, k, n: [(np.array([L0], dtype=object), np.array([R0], dtype=object))]}
+        out1 = Translator(repo, hooks=hooks1, max_depth=3).call_fn(gm, [np.array([[X0], [W0]], dtype=object)], self_obj=SelfObj(cls, {}))
+        got1 = out1[0] if isinstance(out1, list) and len(out1) == 1 else None
+        got1 = got1[0] if isinstance(got1, np.ndarray) and got1.shape == (1,) else got1
+        want1 = sp.And(X0 >= L0, X0 < R0)
+        ok1 = got1 is not None and sp.simplify(sp.Equivalent(sp.sympify(got1), want1)) is sp.true
+        chk.oblige("B-sem", "get_bool_mask with one binned variable and an extra (weight) row: %s" % (got1,), ok1)
+        if not ok1:
+            chk.violation("B-sem", gm.key, "mask-extra-row", "with one binned variable and an extra row the membership mask is %s; only the binned variable may decide (expected %s): the weight row is compared with the bin edges too, so most events fall into no bin and the weight sums are not conserved" % (got1, want1), file=AB, line=gm.lineno)
     except Unmodelled as e:
         chk.info("B-sem: get_bool_mask not interpretable: %s" % e)
     # ---- chain
